@@ -224,7 +224,7 @@ def runSem (j : Json) : Json :=
             | none => (latchCells.find? (fun (m', _, _, _, _, _, _) => m' == m)).map (fun (_, e, mu, _, ty, _, _) => (n, Bind.sum [mu.getD e] ty))
         | _ => none)
       -- verified validator for the scalar fragment (theorem Facto.scalar_end_to_end)
-      let roots : List (Nat × Bind) := core.named.toList.filterMap (fun nm =>
+      let roots : List (Nat × Bind) := (core.named.toList.filter (·.topLevel)).filterMap (fun nm =>
         let r := jgetD c.names nm.name
         let src := jstrD r "src"
         if nm.isBundle then
